@@ -293,4 +293,8 @@ def gen_history(rng, opts):
         # shifts the serializer's reference numbers, known finding K7) and store value by value (in-memory cassette)
         case = no_objects(case)
         case['cassette'] = 'memory'
+    if case['cassette'] == 'async' and 'unser' in __import__('json').dumps(case).lower():
+        # a value the serializer rejects makes a synchronous save fail in front of the recorder; behind the wrapper it fails in
+        # the flusher, out of the recorder's sight: a different (and legitimate) story, kept out of the shared model
+        case['cassette'] = 'memory'
     return case
